@@ -262,6 +262,112 @@ theorem to_path_string_prefix_witness :
 
 theorem to_path_mode_known : Gen.C07.toPathMode ∈ ["string-prefix", "components"] := by decide
 
+/-! ## the names in the diff: `--- a` / `+++ b` headers and the `rename from / rename to` lines -/
+
+/-- the `---` header of a file section is `_from_path` (the key of `get_changed_files()`),
+relative to the project when it is inside, else as it is; `''` for a path-less Script.
+The attribute names in `Gen.C07.diffFromHeader` are the ones written in the source. -/
+theorem diff_header_from (project : Path) (fromP toP : Option Path) :
+    headerPath Gen.C07.diffFromHeader project fromP toP = .ok (displayPath project fromP) := by
+  cases fromP with
+  | none => simp [headerPath, Gen.C07.diffFromHeader, cfAttr, displayPath]
+  | some p =>
+    by_cases h : project <+: p <;>
+      simp [headerPath, Gen.C07.diffFromHeader, cfAttr, displayPath, displayParts, strOpt, h]
+
+/-- the `+++` header is `_to_path` (where the renames of the same refactoring put the file),
+shown by the same rule — in *both* branches: also a file outside the project, whose path
+cannot be made relative, is announced under its new name -/
+theorem diff_header_to (project : Path) (fromP toP : Option Path) :
+    headerPath Gen.C07.diffToHeader project fromP toP = .ok (displayPath project toP) := by
+  cases toP with
+  | none => simp [headerPath, Gen.C07.diffToHeader, cfAttr, displayPath]
+  | some p =>
+    by_cases h : project <+: p <;>
+      simp [headerPath, Gen.C07.diffToHeader, cfAttr, displayPath, displayParts, strOpt, h]
+
+/-- non-vacuity: a file outside the project that is moved; the two headers differ -/
+example : headerPath Gen.C07.diffToHeader ["/", "t", "proj"]
+      (some ["/", "t", "lib", "pkg", "mod.py"]) (some ["/", "t", "lib", "newpkg", "mod.py"])
+    = .ok "/t/lib/newpkg/mod.py".toList ∧
+    headerPath Gen.C07.diffFromHeader ["/", "t", "proj"]
+      (some ["/", "t", "lib", "pkg", "mod.py"]) (some ["/", "t", "lib", "newpkg", "mod.py"])
+    = .ok "/t/lib/pkg/mod.py".toList := by constructor <;> rfl
+
+/-- a shown path, read back against the project, is the path itself — inside the project
+(relative form) and outside it (absolute form) -/
+theorem resolve_display (project p : Path) (hproj : AbsPath project) (hp : AbsPath p) :
+    resolveParts project (displayParts project p) = p := by
+  unfold displayParts resolveParts
+  by_cases h : project <+: p
+  · obtain ⟨rest, rfl⟩ := h
+    simp only [List.prefix_append, if_true, List.drop_left]
+    have hne : rest.head? ≠ some "/" := by
+      intro hh
+      obtain ⟨hh1, hh2⟩ := hp
+      cases project with
+      | nil => simp [AbsPath] at hproj
+      | cons a pt =>
+        apply hh2
+        simp only [List.cons_append, List.tail_cons, List.mem_append]
+        right
+        cases rest with
+        | nil => simp at hh
+        | cons b rt => simp at hh; simp [hh]
+    simp [hne]
+  · simp [h, hp.1]
+
+example : AbsPath ["/", "t", "proj"] ∧ AbsPath ["/", "t", "lib", "pkg", "mod.py"] ∧
+    displayParts ["/", "t", "proj"] ["/", "t", "lib", "pkg", "mod.py"] = ["/", "t", "lib", "pkg", "mod.py"] ∧
+    displayParts ["/", "t", "proj"] ["/", "t", "proj", "a", "m.py"] = ["a", "m.py"] := by
+  simp [AbsPath, displayParts]
+
+/-- **a moved file is announced under the name it has afterwards**: for a changed file at `p`
+below a renamed path, the `+++` header is the rendering of `renamedPath old new p` and that
+name, read back against the project, is where `rename` leaves the file's contents.
+(`toPathMode`, the header attributes come from the source.) -/
+theorem announced_name_holds_contents (project old new p : Path) (fromP : Option Path) (fs : FS)
+    (hproj : AbsPath project) (hto : AbsPath (renamedPath old new p)) (hmoved : old <+: p) :
+    headerPath Gen.C07.diffToHeader project fromP (some (toPath Gen.C07.toPathMode [(old, new)] p))
+      = .ok (pathStr (displayParts project (renamedPath old new p))) ∧
+    rename fs old new (resolveParts project (displayParts project (renamedPath old new p))) = fs p := by
+  constructor
+  · rw [diff_header_to]
+    simp [displayPath, toPath, Gen.C07.toPathMode]
+  · rw [resolve_display project _ hproj hto]
+    exact rename_moves fs old new p hmoved
+
+/-- a changed file that no rename touches keeps its name: both headers show `p` and the file
+is still there after the renames -/
+theorem announced_name_unmoved (project old new p : Path) (fs : FS)
+    (hproj : AbsPath project) (hp : AbsPath p) (h1 : ¬ old <+: p) (h2 : ¬ new <+: p) :
+    headerPath Gen.C07.diffToHeader project (some p) (some (toPath Gen.C07.toPathMode [(old, new)] p))
+      = headerPath Gen.C07.diffFromHeader project (some p) (some (toPath Gen.C07.toPathMode [(old, new)] p)) ∧
+    rename fs old new (resolveParts project (displayParts project p)) = fs p := by
+  constructor
+  · rw [diff_header_to, diff_header_from]
+    simp [toPath, Gen.C07.toPathMode, renamedPath, h1]
+  · rw [resolve_display project _ hproj hp]
+    simp [rename, h1, h2]
+
+example : renamedPath ["/", "t", "lib", "pkg"] ["/", "t", "lib", "newpkg"] ["/", "t", "lib", "pkg", "mod.py"]
+    = ["/", "t", "lib", "newpkg", "mod.py"] ∧ ["/", "t", "lib", "pkg"] <+: ["/", "t", "lib", "pkg", "mod.py"] := by
+  decide
+
+/-- the `rename from … / rename to …` lines of `Refactoring.get_diff` name the old path, then
+the new path, each by the same display rule (format string, argument order and
+`_try_relative_to` read from the source) -/
+theorem rename_lines_name_renames (project o n : Path) :
+    renameLine Gen.C07.tryRelativeToSel Gen.C07.renameLinePieces Gen.C07.renameLineArgs project (o, n) =
+      "rename from ".toList ++ pathStr (displayParts project o) ++ "\nrename to ".toList
+        ++ pathStr (displayParts project n) ++ "\n".toList := by
+  simp [renameLine, Gen.C07.tryRelativeToSel, Gen.C07.renameLinePieces, Gen.C07.renameLineArgs,
+    tryRelativeTo, displayParts]
+
+example : renameLines Gen.C07.tryRelativeToSel Gen.C07.renameLinePieces Gen.C07.renameLineArgs ["/", "t", "proj"]
+    [(["/", "t", "lib", "ns"], ["/", "t", "lib", "nn"]), (["/", "t", "proj", "ns"], ["/", "t", "proj", "nn"])]
+    = "rename from /t/lib/ns\nrename to /t/lib/nn\nrename from ns\nrename to nn\n".toList := by decide
+
 /-! ## exception contract -/
 
 /-- shape of the source the model relies on (a source edit breaks this) -/
